@@ -20,6 +20,33 @@ for line in open(sys.argv[1], errors="replace"):
     if e.get("Test") and e.get("Action") in ("pass", "fail", "skip"):
         res[e["Package"] + "::" + e["Test"]] = e["Action"]
 bad = sorted(t for t in stable if res.get(t) != "pass")
+# Tests that use real tuntap devices with a fixed name occasionally *skip* when two of them run at
+# once (also on the unmodified tree): re-run those individually before judging.
+import subprocess, os
+still = []
+for t in bad:
+    if res.get(t) != "skip":
+        still.append(t); continue
+    pkg, name = t.split("::")
+    pat = "/".join("^%s$" % x for x in name.split("/"))
+    ok = False
+    for _ in range(3):
+        p = subprocess.run(["go", "test", "-mod=mod", "-json", "-vet=off", "-count=1", "-run", pat, pkg], cwd=os.environ.get("REPO", "/repo"),
+                           stdout=subprocess.PIPE, stderr=subprocess.DEVNULL, text=True)
+        for line in p.stdout.splitlines():
+            try:
+                e = json.loads(line)
+            except Exception:
+                continue
+            if e.get("Test") == name and e.get("Action") == "pass":
+                ok = True
+        if ok:
+            break
+    if ok:
+        res[t] = "pass"
+    else:
+        still.append(t)
+bad = still
 print("stable tests: %d, passed: %d" % (len(stable), len(stable) - len(bad)))
 for t in bad:
     print("NOT-PASSED", t, res.get(t))
